@@ -2,8 +2,17 @@
 
 Random operation sequences are applied to real LinearPolynomial / Promise objects through the
 internal API; the same sequences are replayed on the model inside coqc (Run/PolyRun.v)."""
+import signal
 import common as C
 import impl
+
+
+class PolyHang(BaseException):
+    pass
+
+
+def _alarm(signum, frame):
+    raise PolyHang()
 
 NREGS = 5
 NVARS = 6          # variables 1..3 are Promises, 4..6 are "late" Deferreds
@@ -212,11 +221,20 @@ def run(rep, pid, rng, n):
     cases = []
     for i in range(n):
         ops = gen_ops(rng, rng.choice([4, 8, 12, 20, 30]))
+        old = signal.signal(signal.SIGALRM, _alarm)
+        signal.setitimer(signal.ITIMER_REAL, 5)
         try:
             regs, rets = drive(ops)
+        except PolyHang:
+            rep.violate("poly-hang", "LinearPolynomial.wait() did not return within 5 s on this operation sequence (driven through the internal API)",
+                        {"ops": ops})
+            continue
         except Exception as ex:  # the real objects raised where the model has no such case
             rep.disagree("poly: the real LinearPolynomial raised " + type(ex).__name__, {"ops": ops}, impl=str(ex)[:200])
             continue
+        finally:
+            signal.setitimer(signal.ITIMER_REAL, 0)
+            signal.signal(signal.SIGALRM, old)
         cases.append((ops, regs, rets))
     terms = [case_term(*c) for c in cases]
     codes = C.run_case_files(pid + "_poly", "Model.Poly Run.PolyRun", "Open Scope Z_scope.", C.shard(terms, 300),
